@@ -1161,3 +1161,46 @@ fn run_c02(rec: &mut Rec) {
 fn replay_c02(case: &Value, rec: &mut Rec) {
     replay_scope(case, rec, Scope::Cycles)
 }
+
+thread_local! {
+    static FUZZ_PAIR: std::cell::RefCell<Option<JPair>> = std::cell::RefCell::new(None);
+}
+
+/// fuzz entry: bytes -> placement, initial registers, instruction stream (defined,
+/// non-terminating encodings only) and terminator; differential oracle inside.
+pub fn fuzz_block(data: &[u8]) -> Result<(), Fail> {
+    if data.len() < 16 {
+        return Ok(());
+    }
+    let table = body_table();
+    let place = u16::from_le_bytes([data[0], data[1]]) % 1000;
+    let mut regs = [0u16; 5];
+    for k in 0..5 {
+        regs[k] = u16::from_le_bytes([data[2 + 2 * k], data[3 + 2 * k]]);
+    }
+    let f = data[12] & 0xf0;
+    let cyc5 = data[12] & 1 == 1;
+    let term = (data[13] % 34, data[14], data[15]);
+    let mut ops = Vec::new();
+    for ch in data[16..].chunks_exact(3).take(31) {
+        ops.push(((ch[0] as u16) << 8 | ch[0] as u16, ch[1], ch[2]));
+    }
+    let _ = table;
+    let g = GenBlock { place, ops, term, regs, f, cyc5 };
+    let c = materialize(&g);
+    FUZZ_PAIR.with(|p| {
+        let mut p = p.borrow_mut();
+        if p.is_none() {
+            *p = Some(JPair::new());
+        }
+        match run_block(p.as_mut().unwrap(), &c, Scope::Effect) {
+            Ok(_) => Ok(()),
+            Err(f) if f.sig == "reference-panic" => Ok(()),
+            Err(f) => Err(Fail::new(f.sig, format!("{} [case {}]", f.detail, block_json(&c)))),
+        }
+    })
+}
+
+pub fn fuzz_block_json(data: &[u8]) -> Value {
+    json!({"kind": "fuzz-bytes", "bytes": hex(data)})
+}
